@@ -110,10 +110,13 @@ impl Iterator for QueryIterator {
                     author_filter,
                     selector,
                 } => loop {
-                    // get the next entry from the query range, filtered by the author filter
+                    // get the next entry from the query range, filtered by the author filter.
+                    // When grouping by key, the author filter applies to the latest entry of each
+                    // key (see [`Query`]): it is applied after the grouping, further below.
+                    let grouped = selector.is_some();
                     let next = range
                         .next_filtered(&self.query.sort_direction, |(_ns, _key, author)| {
-                            author_filter.matches(&(AuthorId::from(author)))
+                            grouped || author_filter.matches(&(AuthorId::from(author)))
                         });
 
                     // early-break if next contains Err
@@ -132,6 +135,11 @@ impl Iterator for QueryIterator {
                             SelectorRes::Some(res) => Some(res),
                         },
                     };
+
+                    // skip the latest entry of a key if it is not by the requested author
+                    if grouped && matches!(&next, Some(e) if !author_filter.matches(&e.author())) {
+                        continue;
+                    }
 
                     // skip the entry if empty and no empty entries requested
                     if !self.query.include_empty && matches!(&next, Some(e) if e.is_empty()) {
